@@ -286,7 +286,123 @@ def ag_mol(eng, res, rule="R-AG-MOL"):
     res.ob(rule, an, "edge-lists", "a new node inherits the outgoing stochastic / termination / transition edges of its source atom, each kind only when allowed", an.node, ok)
 
 
+def ag_consume(eng, res, rule="R-AG-CONSUME"):
+    """A node that has just formed a non-static bond offers no further edge: its edge lists are cleared
+    (sibling rule over the bonding sites; the transition site clears the transition lists of all nodes)."""
+    import re
+
+    n = 0
+    REQUIRED = {"_add_stochastic_connection": {"stochastic", "termination", "transition"},
+                "_terminate_graph": {"stochastic", "termination", "transition"},
+                "generate": {"transition"}}
+    for f in methods(eng):
+        if f.name not in REQUIRED or f.qualname == FILL:
+            continue
+        fl = eng.flow(f)
+        cfg = fl.cfg
+        bonds = [c for c in calls(f, "add_edge") if src(c.func.value) == "self.graph"]
+        if not bonds:
+            continue
+        for c in bonds:
+            n += 1
+            res.unit(f)
+            at = cfg.node_of(c)
+            A = src(fl.expand_names(c.args[0], at))
+            cleared = {}
+            sources = [(f, x) for x in calls(f, "clear")]
+            # helpers called with the source node: inline one level
+            for h in calls(f):
+                for t in eng.repo_callees(f, h):
+                    if t.cls is not None and t.cls.name == "AtomGraph" and t.qualname != FILL and any(src(fl.expand_names(a, cfg.node_of(h))) == A for a in h.args):
+                        for x in calls(t, "clear"):
+                            sources.append((t, x, h))
+            for item in sources:
+                owner, x = item[0], item[1]
+                via = item[2] if len(item) > 2 else None
+                ofl = eng.flow(owner)
+                tgt = src(ofl.expand_names(x.func.value, ofl.cfg.node_of(x)))
+                m = re.fullmatch(r"self\.graph\.nodes\[(.+)\]\['(\w+)_edges'\]", tgt)
+                if not m:
+                    continue
+                node_txt, kind = m.group(1), m.group(2)
+                if via is not None:
+                    # bind the helper's parameter to the argument
+                    prm = owner.params[1:]
+                    amap = {p: src(fl.expand_names(a, cfg.node_of(via))) for p, a in zip(prm, via.args)}
+                    node_txt = amap.get(node_txt, node_txt)
+                    pos = cfg.node_of(via)
+                else:
+                    pos = cfg.node_of(x)
+                loops = [l for l in (ofl.cfg.enclosing_loops(x)) if isinstance(l, ast.For)]
+                all_nodes = any(src(l.iter) in ("self.graph", "self.graph.nodes()", "self.graph.nodes") and isinstance(l.target, ast.Name) and l.target.id == node_txt for l in loops)
+                if node_txt == A or all_nodes:
+                    before = cfg.must_pass(pos, at) if not all_nodes else cfg.must_pass(cfg.node_of(loops[0]) if via is None else pos, at)
+                    after = cfg.must_follow(at, pos) if not all_nodes else False
+                    if before or after:
+                        cleared[kind] = True
+            need = REQUIRED[f.name]
+            missing = sorted(need - set(cleared))
+            res.ob(rule, f, f"site:{f.name}", f"the node that forms the bond gives up its {', '.join(sorted(need))} edge list(s) on every path (a used attachment point offers nothing further)",
+                   c, not missing, f"not cleared for the bonding node {A[:40]}: {missing}")
+    return n
+
+
+def ag_static_graph(eng, res, rule="R-AG-STATIC-GRAPH"):
+    """The static template keeps, for every atom pair, the attributes of the edge that *is* static."""
+    f = eng.prog.func(f"{CLS}._build_static_graph")
+    res.unit(f)
+    fl = eng.flow(f)
+    cfg = fl.cfg
+    ae = [c for c in calls(f, "add_edge")]
+    ok = len(ae) == 1
+    why = f"{len(ae)} add_edge site(s)"
+    if ok:
+        c = ae[0]
+        kw = [k for k in c.keywords if k.arg is None]
+        ok = len(kw) == 1 and isinstance(kw[0].value, ast.Name)
+        why = "attributes are not passed as **<edge data>"
+        if ok:
+            V = kw[0].value.id
+            at = cfg.node_of(c)
+            tests = [t for t in calls(f, "_is_static_edge") if t.args and isinstance(t.args[0], ast.Name)]
+            ok = False
+            why = f"**{V} is not tied to the edge for which _is_static_edge held"
+            for t in tests:
+                tv = t.args[0].id
+                tn = cfg.node_of(t)
+                st = cfg.nodes[tn].stmt
+                if not isinstance(st, ast.If):
+                    continue
+                loops = [l for l in cfg.enclosing_loops(t) if isinstance(l, ast.For)]
+                lp = loops[0] if loops else None
+                # flag assigned in the true branch
+                flags = [s_ for s_ in st.body if isinstance(s_, ast.Assign) and isinstance(s_.targets[0], ast.Name) and isinstance(s_.value, ast.Name) and s_.value.id == tv]
+                if not flags:
+                    continue
+                F = flags[0].targets[0].id
+                guarded = any(pol and (src(g) == F or src(g).startswith(F + " and")) for g, pol in cfg.guard_exprs(at)) or any(
+                    pol and F in [x for x, p_ in __import__("sa.rules.c16", fromlist=["conjuncts"]).conjuncts(g, pol) if p_] for g, pol in cfg.guard_exprs(at))
+                if V == F:
+                    ok = guarded
+                    why = f"**{F}: the saved static edge" if ok else f"add_edge not guarded by {F}"
+                elif V == tv and lp is not None:
+                    # the loop variable: only right if the loop is left immediately after the successful test
+                    starts = [d for d, l in cfg.succ[tn] if l == "T"]
+                    hn = cfg.node_of(lp)
+                    outer = {cfg.node_of(l) for l in loops[1:]}
+                    revisits = hn in cfg.reachable(starts, avoid_nodes=outer | {at})
+                    ok = guarded and not revisits
+                    why = (f"**{V} is the loop variable and the loop is left right after the static edge was found" if ok
+                           else f"**{V} is the loop variable but the loop continues after a static edge was found: a later parallel (stochastic) edge supplies the bond order")
+    res.ob(rule, f, "static-attributes", "the static template takes its bond order from the edge that is static, never from a parallel stochastic / transition edge", ae[0] if ae else f.node, ok, why)
+    # nodes copied with their attributes; reverse duplicates skipped
+    e, _ = __import__("sa.rules.c17", fromlist=["locate"]).locate(f, ["for $N in self.stochastic_graph.nodes(data=True)", "$G.add_node($N[0], **$N[1])", "return $G"])
+    res.ob(rule, f, "nodes-copied", "every atom of the stochastic graph is a node of the static template with its attributes", f.node, e is not None)
+
+
 def check(eng, res):
+    res.doc("R-AG-CONSUME", "a node that forms a non-static bond clears its edge lists (typestate open -> used), at all three bonding sites")
+    res.doc("R-AG-STATIC-GRAPH", "the static template's bond orders come from static edges only")
     res.doc("R-AG-FILL", "typestate by def-use flow: every node id obtained from _add_node outside the static completion reaches _fill_static_edges; the completion covers the whole residue")
     res.doc("R-AG-EDGE-ORIGIN", "a non-static bond joins the edge list's owner and a node created from the selected edge's target, with that edge's order")
     res.doc("R-AG-RNG", "all picks and the draw use self.rng with weights / their sum; unseeded fallback only for None; per-instance draw map")
@@ -297,6 +413,9 @@ def check(eng, res):
     res.floor("R-AG-EDGE-ORIGIN", n, 3)
     n = ag_rng(eng, res)
     res.floor("R-AG-RNG", n, 6)
+    n = ag_consume(eng, res)
+    res.floor("R-AG-CONSUME", n, 3)
+    ag_static_graph(eng, res)
     ag_mol(eng, res)
     res.assumptions += ["networkx dfs_tree / edges(nbunch) semantics", "RDKit AddAtom returns consecutive indices"]
     res.not_decided += ["termination for every graph with a start node", "connectedness / tree-ness and sanitisation of the result", "equality under equal seeds (beyond rng threading)"]
